@@ -82,7 +82,8 @@ Definition e_totals (t : totals) : V :=
       e_oamt (t_tax_included t); e_amt (t_total t); e_amt (t_tax t); e_amt (t_twt t); e_amt (t_payable t);
       e_oamt (t_advances t); e_oamt (t_due t); VL (map e_amt (t_dd t)); VL (map e_amt (t_cc t));
       VL (map e_amt (t_adv_rows t)); VL (map e_amt (t_dues t)); VL (map e_ct (t_cats t));
-      match t_cats t with [] => VL [] | _ => e_amt (t_taxsum t) end].
+      match t_cats t with [] => VL [] | _ => e_amt (t_taxsum t) end;
+      e_oamt (t_rounding t)].
 
 Definition e_result (r : calc_result) : list V :=
   match r with
